@@ -528,3 +528,79 @@ def replay(ctx, payload):
         if sc.get('first_block'):          # a replayed-signatures scenario: first the block the signatures were made for
             lib_accept(dict(sc, root=sc['first_block'][0], file=sc['first_block'][1]))
         check_one(ctx, sc)
+
+
+# ----------------------------------------------------------------------------- appended by strengthener st-proof (round 11)
+# Class "two different valid signatures by one key for one message": Ed25519 signatures are not unique - the key holder gets a
+# different valid signature for every nonce r (R = rB, S = r + H(R||A||M) a mod L; RFC 8032 5.1.6 with r chosen freely).  Any guard
+# against counting a validator twice that looks at the signature BYTES (or at anything but the signer's identity) is blind to it.
+# sign_with_nonce is RFC 8032 signing on top of libsodium's base-point multiplication; every signature it returns is checked with
+# PyNaCl's verifier (raw_verify) before it is used.  Faults: 'dup-resign' / 'dup-pad-resign' = the dup / dup-pad scenarios whose
+# repeated entries carry pairwise DIFFERENT valid signatures; 'none-resign' = an honest set signed with free nonces (must be accepted).
+
+ED_L = 2 ** 252 + 27742317777372353535851937790883648493
+
+
+def sign_with_nonce(seed: bytes, msg: bytes, r: int) -> bytes:
+    from nacl.bindings import crypto_scalarmult_ed25519_base_noclamp
+    h = hashlib.sha512(seed).digest()
+    a = int.from_bytes(h[:32], 'little')
+    a &= (1 << 254) - 8
+    a |= 1 << 254
+    A = bytes(SigningKey(seed).verify_key)
+    r %= ED_L
+    if r == 0:
+        r = 1
+    R = crypto_scalarmult_ed25519_base_noclamp(r.to_bytes(32, 'little'))
+    k = int.from_bytes(hashlib.sha512(R + A + msg).digest(), 'little') % ED_L
+    S = (r + k * a) % ED_L
+    return R + S.to_bytes(32, 'little')
+
+
+_scenario_before_resign = scenario
+FAULTS = FAULTS + ['dup-resign', 'dup-pad-resign', 'dup-resign', 'none-resign']
+
+
+def scenario(rng, pool, n, mode, target, fault):
+    if not fault.endswith('-resign'):
+        return _scenario_before_resign(rng, pool, n, mode, target, fault)
+    sc = _scenario_before_resign(rng, pool, n, mode, target, fault[:-len('-resign')])
+    if sc is None:
+        return None
+    payload = SIGN_MAGIC + sc['root'] + sc['file']
+    by_id = getattr(pool, '_seed_by_id', None)
+    if by_id is None:
+        by_id = pool._seed_by_id = {node_id(pk): (bytes(sk), pk) for sk, pk in pool.keys}
+    used, seen, sigs = set(), set(), []
+    all_free = fault == 'none-resign' or rng.random() < 0.3
+    for i, s in sc['sigs']:
+        if i in seen or all_free:
+            seed, pk = by_id[i]
+            while True:
+                s = sign_with_nonce(seed, payload, rng.getrandbits(256) if rng.random() < 0.8 else rng.randrange(1, 5))
+                if s not in used:
+                    break
+            if not raw_verify(pk, payload, s):
+                from ..core import MachineryError
+                raise MachineryError('C12 harness: a signature made with a chosen nonce does not verify under PyNaCl')
+        elif s in used:      # the deterministic signature once more: keep the first, re-sign this one
+            seed, pk = by_id[i]
+            s = sign_with_nonce(seed, payload, rng.getrandbits(256))
+        seen.add(i)
+        used.add(s)
+        sigs.append((i, s))
+    sc['sigs'] = sigs
+    sc['kind'] = f'{target}/{fault}'
+    if fault == 'none-resign':
+        sc['why'] += '; every signature made with a freely chosen nonce (valid, not the deterministic RFC 8032 one)'
+    else:
+        sc['why'] += '; the repeated entries carry pairwise DIFFERENT valid signatures of the same validator (Ed25519 nonce chosen freely)'
+        assert len({s for _, s in sigs}) == len(sigs) and len({i for i, _ in sigs}) < len(sigs)
+    return sc
+
+
+SPEC['manifest']['text'] += (' NON-UNIQUE SIGNATURES (sampled, every run): the duplicate scenarios also run with repeated entries that carry pairwise DIFFERENT valid '
+                             'Ed25519 signatures of the same validator over the same block id (RFC 8032 signing with a freely chosen nonce, implemented in the harness on '
+                             'libsodium\'s base-point multiplication, each signature confirmed by PyNaCl\'s verifier), and honest sets signed that way must be accepted.')
+SPEC['rule'] += ('; faults dup-resign / dup-pad-resign: a validator listed several times with different valid signatures (chosen nonces) - must be rejected; '
+                 'none-resign: honest set with chosen-nonce signatures - verdict by weight')
